@@ -11,6 +11,7 @@ import (
 	"fmt"
 	"strconv"
 	"strings"
+	"sync"
 	"time"
 
 	"github.com/attestantio/go-eth2-client/spec/phase0"
@@ -20,10 +21,33 @@ import (
 
 	opvalidator "github.com/bloxapp/ssv/operator/validator"
 	"github.com/bloxapp/ssv/protocol/v2/ssv/queue"
+	"github.com/bloxapp/ssv/protocol/v2/ssv/validator"
 	ssvtypes "github.com/bloxapp/ssv/protocol/v2/types"
 	"github.com/bloxapp/ssv/zz_verif/lib/hx"
 	"github.com/bloxapp/ssv/zz_verif/lib/rkit"
 )
+
+// watchQueue wraps a validator queue and records which of the MARKED messages (the ones the harness routed from the "network")
+// are pushed into it: the exact meaning of "the message reached the validator's queue". Nothing else is changed.
+type watchQueue struct {
+	queue.Queue
+	mu     *sync.Mutex
+	marked map[*queue.DecodedSSVMessage]bool
+	pushed map[*queue.DecodedSSVMessage]bool
+}
+
+func (q *watchQueue) note(m *queue.DecodedSSVMessage) {
+	q.mu.Lock()
+	if q.marked[m] {
+		q.pushed[m] = true
+	}
+	q.mu.Unlock()
+}
+func (q *watchQueue) Push(m *queue.DecodedSSVMessage) { q.note(m); q.Queue.Push(m) }
+func (q *watchQueue) TryPush(m *queue.DecodedSSVMessage) bool {
+	q.note(m)
+	return q.Queue.TryPush(m)
+}
 
 func (w *world) broadcastsOf(id int) int {
 	w.mu.Lock()
@@ -51,7 +75,29 @@ func doRouterCase(run *hx.Run, line string) {
 	km := rkit.NewRecKM()
 	signerFor = func(int) spectypes.KeyManager { return km }
 	onlyOp = 1
-	defer func() { signerFor, onlyOp = nil, 0 }()
+	var wmu sync.Mutex
+	marked, pushed := map[*queue.DecodedSSVMessage]bool{}, map[*queue.DecodedSSVMessage]bool{}
+	beforeStart = func(v *validator.Validator) {
+		for role, qc := range v.Queues {
+			qc.Q = &watchQueue{Queue: qc.Q, mu: &wmu, marked: marked, pushed: pushed}
+			v.Queues[role] = qc
+		}
+	}
+	defer func() { signerFor, onlyOp, beforeStart = nil, 0, nil }()
+	// route marks the message as network-originated and hands it to the real router loop
+	var lastRouted *queue.DecodedSSVMessage
+	route := func(router *opvalidator.VerifRouter, d *queue.DecodedSSVMessage) {
+		wmu.Lock()
+		marked[d] = true
+		wmu.Unlock()
+		lastRouted = d
+		router.Route(d)
+	}
+	reached := func() bool {
+		wmu.Lock()
+		defer wmu.Unlock()
+		return lastRouted != nil && pushed[lastRouted]
+	}
 	kind0, _ := rkit.KindByName("att")
 	w, bn, cancelAll := buildWorld(params{n: 4}, kind0, 2*time.Second) // long rounds: no timer fires during the case
 	defer w.shutdown(cancelAll)
@@ -112,7 +158,7 @@ func doRouterCase(run *hx.Run, line string) {
 		case "exec":
 			if d, role, ok := execMsg(arg, uint64(20+i)); ok {
 				eventFromNetwork = true
-				router.Route(d)
+				route(router, d)
 				settle(role)
 			}
 		case "tmo":
@@ -132,7 +178,7 @@ func doRouterCase(run *hx.Run, line string) {
 			if err == nil {
 				if d, err := queue.DecodeSSVMessage(m); err == nil {
 					eventFromNetwork = true
-					router.Route(d)
+					route(router, d)
 					settle(kind.Role)
 				}
 			}
@@ -159,14 +205,17 @@ func doRouterCase(run *hx.Run, line string) {
 			continue
 		}
 		ds, db := km.SignCount()-signs0, w.broadcastsOf(1)-bc0
-		obs = append(obs, fmt.Sprintf("%s:s%d/b%d", what, ds, db))
+		obs = append(obs, fmt.Sprintf("%s:s%d/b%d/q%d", what, ds, db, b2i(eventFromNetwork && reached())))
 		run.Tag("router/" + parts[0])
-		if eventFromNetwork && (ds > 0 || db > 0) {
-			sig := "C03/validator-glue:network-event-message-took-effect:" + parts[0]
-			detail := fmt.Sprintf("an SSVEventMsgType message (%s) that arrived FROM THE NETWORK through handleRouterMessages reached the validator's queue: %d SignBeaconObject call(s) and %d broadcast(s) of this operator followed", it, ds, db)
+		// EXACT attribution: the verdict depends only on whether THIS routed event message was pushed into the validator's queue
+		// (with the guard of handleRouterMessages in place it never is); signatures / broadcasts observed around it are detail only,
+		// they may as well stem from the local duty, its round timer or the consensus messages routed before.
+		if eventFromNetwork && reached() {
+			sig := "C03/validator-glue:network-event-message-reached-the-validator-queue:" + parts[0]
+			detail := fmt.Sprintf("an SSVEventMsgType message (%s) that arrived FROM THE NETWORK was handed by handleRouterMessages to the validator (pushed into its queue); in the window after it: %d SignBeaconObject call(s), %d broadcast(s) of this operator", it, ds, db)
 			if parts[0] == "exec" && ds > 0 {
 				sig = "C03/validator-glue:network-execute-duty-event-started-a-duty-and-signed"
-				detail = fmt.Sprintf("an ExecuteDuty event (%s) that arrived FROM THE NETWORK through handleRouterMessages started a duty without any beacon duty: %d validator-key signature(s) (SignBeaconObject), %d broadcast(s)", it, ds, db)
+				detail = fmt.Sprintf("an ExecuteDuty event (%s) that arrived FROM THE NETWORK was handed by handleRouterMessages to the validator's queue and started a duty without any beacon duty: %d validator-key signature(s) (SignBeaconObject), %d broadcast(s)", it, ds, db)
 			}
 			run.Violate(sig, detail, line)
 		}
@@ -210,3 +259,10 @@ func genRouter(run *hx.Run) {
 }
 
 var _ = tu.TestingValidatorIndex
+
+func b2i(b bool) int {
+	if b {
+		return 1
+	}
+	return 0
+}
